@@ -332,7 +332,9 @@ def run(chk):
         else_calls = [c["m"] for c in mcalls(iffs[0].get("else") or {"k": "Block", "c": []}, {"makeUnion", "makeIntersection", "clear"})] if iffs else []
         chk.instance(r_logic, fnname + ":guard", sample=dict(guard=guard, then=then_calls, otherwise=else_calls))
         order_ok = iffs and stmt_list(f["body"]).index(iffs[0]) == 1
-        if guard != "(!this.result_)" or then_calls != ["clear"] or else_calls != [setfn] or not order_ok:
+        # (facts are loaded with `if (!c) A else B` turned into `if (c) B else A`)
+        ok_g = (guard == "(!this.result_)" and then_calls == ["clear"] and else_calls == [setfn]) or (guard == "this.result_" and then_calls == [setfn] and else_calls == ["clear"])
+        if not ok_g or not order_ok:
             chk.violation(r_logic, fnname + ":guard", "Result::Impl::%s: the entity set must be cleared exactly when the combined condition value (this->result_, after the update) is false and combined with %s otherwise; found guard %s, then %s, else %s - a false sub-condition would contribute wells" % (fnname, setfn, guard, then_calls, else_calls), f["file"], f["l"])
         chk.instance(r_logic, fnname, sample=dict(assign=asg, calls=calls))
         if asg != ["(this.result_ = (this.result_ %s rhs.result_))" % boolop] or sorted(calls) != sorted(["clear", setfn]):
@@ -630,6 +632,9 @@ def run(chk):
         t0 = [x["k"] for x in stmt_list(st_[0]["then"])]
         t1 = [show(x).replace(" ", "") for x in stmt_list(st_[1]["then"])]
         e1 = [show(x).replace(" ", "") for x in stmt_list(st_[1].get("else"))] if st_[1].get("else") is not None else []
+        if c1 == "%s.has_value()" % pc_:
+            # canonical orientation of `if (!curr.has_value()) adopt else intersect`
+            c1, t1, e1 = "(!%s.has_value())" % pc_, e1, t1
         oke = c0 == "(!%s.has_value())" % po and t0 == ["Return"] and st_[0].get("else") is None and c1 == "(!%s.has_value())" % pc_ and t1 == ["(%s=%s)" % (pc_, po)] \
             and len(e1) == 1 and re.fullmatch(r"(\(->%s\)|%s)\.makeIntersection\(\(\*%s\)\)" % (pc_, pc_, po), e1[0]) is not None
         det_e = dict(first=c0, second=c1, adopt=t1, otherwise=e1)
